@@ -57,8 +57,10 @@ def oracle_trace(ctx, case, static, trace, feasible=False):
     issued_on = {}     # site -> date of the outstanding request
     prev = {st["site"]: {"queued": 0, "done": {}} for st in static}
     stationary = case["kind"] == "stationary"
+    by_report = {}
     for k, rec in enumerate(trace):
         y, m, d = rec["date"]
+        before_done = {i: dict(v["done"]) for i, v in prev.items()}
         inp = {"case": case, "day": k, "date": rec["date"]}
         if rec["crash"] and rec["crash"] != "key_error":
             ctx.violate("C06:crash:" + rec["crash"], f"{rec['crash']} raised by the schedule on {rec['date']}", inp)
@@ -107,6 +109,19 @@ def oracle_trace(ctx, case, static, trace, feasible=False):
                                 f"site {i} holds no request on {rec['date']}", inp)
             if len(set(rec["plan"])) != len(rec["plan"]):
                 ctx.violate("C06:stationary:site-twice", "a site is planned twice on one day", inp)
+            if case.get("method_class") != "wholerun" and case.get("forced") is None and "workable" in rec:
+                w = rec["workable"]
+                outs_today = {o[0]: o[1] for o in rec["outcomes"]}
+                for j, cs in enumerate(case["sites"]):
+                    i = cs["id"]
+                    st = stat[i]
+                    if not (y in st["dep_years"] and m in st["months"] and required_of(st, y) > 0):
+                        continue
+                    ok = bool(w[j]) if isinstance(w, list) else bool(w)
+                    if (outs_today.get(i) == "C") != ok:
+                        ctx.violate("C06:stationary:observed-iff-workable",
+                                    f"site {i} on {rec['date']}: workable={ok}, observation completed="
+                                    f"{outs_today.get(i) == 'C'} (planned={i in rec['plan']})", inp)
         # ---- calendar membership of every survey worked on today
         for o in rec["outcomes"]:
             i, stt = o[0], o[1]
@@ -147,6 +162,30 @@ def oracle_trace(ctx, case, static, trace, feasible=False):
                 if stationary and n - before > 1:
                     ctx.violate("C06:stationary:observed-twice", f"site {i} observed {n - before} times on one day", inp)
             prev[i] = {"queued": p["queued"], "done": dn}
+        # ---- completed surveys counted from the reports the schedule returns, by COMPLETION DATE
+        #      (independent of the planner's own counters), per (site, calendar year) against required
+        for i, cd in rec.get("completed_reports") or []:
+            st = stat[i]
+            if cd is None or cd != [y, m, d]:
+                ctx.violate("C06:count:report-completion-date", f"site {i}: report returned on {rec['date']} carries "
+                            f"completion date {cd}", inp)
+                continue
+            by_report[(i, y)] = by_report.get((i, y), 0) + 1
+            booked = [yy for yy, n in dict((yy, n) for yy, n in
+                      next(p["done"] for p in rec["planners"] if p["site"] == i)).items()
+                      if n != before_done[i].get(yy, 0)]
+            if booked != [y]:
+                ctx.violate("C06:count:booked-year-differs-from-completion-year",
+                            f"site {i}: survey completed on {rec['date']} was booked on year(s) {booked}", inp)
+            if not stationary and by_report[(i, y)] > required_of(st, y):
+                carried = issued_on.get(i, (None,))[0] != y
+                if required_of(st, y) == 0 and carried:
+                    ctx.violate(SIG_COUNT0, f"site {i}: survey requested on {issued_on.get(i)} completed on "
+                                f"{rec['date']}: 1 completed report > required 0 in {y}", inp)
+                else:
+                    ctx.violate("C06:count:completed-reports-exceed-required",
+                                f"site {i}: {by_report[(i, y)]} completed survey reports dated {y}, required "
+                                f"{required_of(st, y)} (planner counters: {prev[i]['done']})", inp)
         for o in rec["outcomes"]:
             if o[1] == "C":
                 issued_on.pop(o[0], None)
@@ -231,6 +270,41 @@ def loop_case(rng, feasible=False, stationary=False):
     else:
         case["forced"] = forced
     return case
+
+
+def straddle_case(rng):
+    """multi-day surveys that straddle New Year: start in Nov/Dec, survey time above a workday, few crews,
+    the REAL deploy_crews (no forced outcomes), some weather-outs"""
+    sy = rng.choice([2023, 2024, 2025])
+    start = [sy, rng.choice([11, 11, 12]), rng.choice([1, 10, 20])]
+    nd = rng.choice([75, 100, 130])
+    ns = rng.randint(2, 6)
+    hours = rng.choice([4, 8])
+    S = rng.choice([hours * 60 + 30, hours * 90, hours * 150, 1200])
+    freq = rng.choice([2, 4, 6, 12])
+    months = list(range(1, 13)) if rng.random() < 0.8 else [1, 2, 11, 12]
+    return {"kind": "routine", "method_class": rng.choice(["site", "component"]), "start": start,
+            "end": [sy + 1, 12, 31], "ndays": nd, "crews": rng.choice([1, 1, 2]), "cap": rng.choice([None, 1, 2]),
+            "T": rng.choice([0, 15, 30]), "hours": hours, "forced": None,
+            "sites": [{"id": i + 1, "freq": freq, "deploy": True, "months": months, "years": [],
+                       "S": S if rng.random() < 0.8 else 60} for i in range(ns)],
+            "weather": [1 if rng.random() < 0.85 else 0 for _ in range(nd)]}
+
+
+def leap_case(rng, outs=False):
+    """stationary method over the complete leap year 2024, all months deployed; fully workable, or with a
+    few weather-outs"""
+    start = rng.choice([[2024, 1, 1], [2023, 12, 20], [2023, 11, 1]])
+    nd = (date(2025, 1, 3) - SC.D(start)).days
+    ns = rng.randint(1, 3)
+    weather = [1] * nd
+    if outs:
+        for _ in range(rng.randint(1, 6)):
+            weather[rng.randrange(nd)] = 0 if rng.random() < 0.5 else [rng.choice([0, 1]) for _ in range(ns)]
+    return {"kind": "stationary", "method_class": "site", "start": start, "end": [2025, 12, 31], "ndays": nd,
+            "crews": 1, "cap": None, "T": 0, "hours": 8, "forced": None, "weather": weather,
+            "sites": [{"id": i + 1, "freq": None, "deploy": True, "months": list(range(1, 13)), "years": [],
+                       "S": 60} for i in range(ns)]}
 
 
 def boundary_cases():
@@ -476,6 +550,14 @@ def run(ctx):
     cases = [loop_case(rng) for _ in range(ctx.pick(45, 450))]
     cases += [loop_case(rng, stationary=True) for _ in range(ctx.pick(30, 300))]
     metas = run_loop_cases(ctx, cases)
+    cases = [straddle_case(rng) for _ in range(ctx.pick(40, 600))]
+    cases += [leap_case(rng) for _ in range(ctx.pick(3, 25))] + [leap_case(rng, outs=True) for _ in range(ctx.pick(3, 25))]
+    # the steady state after a New-Year straddle: 6 sites of 1200 minutes, one crew, 4 surveys a year, Nov 1 start
+    cases.append({"kind": "routine", "method_class": "site", "start": [2025, 11, 1], "end": [2026, 12, 31], "ndays": 426,
+                  "crews": 1, "cap": None, "T": 0, "hours": 8, "forced": None, "weather": [],
+                  "sites": [{"id": i + 1, "freq": 4, "deploy": True, "months": list(range(1, 13)), "years": [],
+                             "S": 1200} for i in range(6)]})
+    run_loop_cases(ctx, cases, tag="newyear-leap")
     feas = [loop_case(rng, feasible=True) for _ in range(ctx.pick(18, 200))]
     run_loop_cases(ctx, feas, feasible=True, tag="feasible")
     plan_stage(ctx)
